@@ -94,6 +94,16 @@ CHECKS = {
         note="Observable = compiler verdicts (g++ 12, clang++ 14; precompiled prelude).  Same-dimension twins use floating reps or identical "
              "units so that the conversion policy cannot interfere.  Pair sample is seeded in the quick tier.",
         technique="TLA+ denotation decides action guards (TLC) + one-probe compiles that must fail with compiling twins + trait TUs", ref="6/C01"),
+    "C08": dict(
+        text="Quantity.tla models a mixed-unit operation on the scaled machine as CommonUnit / CastToCommon (rep_cast + integer multiply under "
+             "the implicit-conversion guard) / Apply; TLC explores every value pair of every equal-signedness rep pair x every pair of unit "
+             "ratios and proves comparisons = exact rational order, + - % exact, <=> agrees, the six comparisons mutually consistent.  TLC "
+             "then emits (rep pair, unit pair) contracts over BigInt; a comparator sweeps all 8-bit-valued operand pairs plus boundary and "
+             "random wider values through the real == != < <= > >= + - % <=> and every disagreement, boundary pair and sampled agreement is "
+             "re-derived by TLC.",
+        note="Sum/difference exactness additionally assumes the raw operator on the scaled values does not overflow; x % -1 at the minimum is "
+             "excluded (UB of the raw operator).  Floating reps: covered through C05/C15 tolerances only.",
+        technique="TLA+ pipeline model checked by TLC + TLC-emitted contracts swept against the real operators, adjudicated by TLC (BigInt)", ref="6/C08"),
 }
 
 
